@@ -86,6 +86,37 @@ def expectations(ctx, trace):
     return n, n_acc
 
 
+def key_expectations(ctx, trace):
+    """Coverage expectations of the key-level stage (exit 2): every unchanged valid base key is accepted under the
+    prefixes its type supports and yields a usable, self-consistent primitive; the weak bases are exercised."""
+    st = dict(accepted=0, usable=0, rejected=0, below_minimum_seen=0, types=set())
+    ok_unchanged = {}
+    for line in open(trace):
+        e = json.loads(line)
+        st["types"].add(e["type"])
+        acc = [g for g in e["outs"] if g["out"] == "handle"]
+        prim = [g["prim"] for g in acc if g["prim"]["fam"] != "skipped"]
+        if acc:
+            st["accepted"] += 1
+            if prim and prim[0]["created"] and prim[0]["produced"]:
+                st["usable"] += 1
+        else:
+            st["rejected"] += 1
+        if e["edit"] == "unchanged":
+            k = (e["type"], e["base"])
+            good = bool(prim) and prim[0]["created"] and (prim[0]["kind"] == "consume-only" or (prim[0]["produced"] and prim[0]["consumed"]))
+            ok_unchanged[k] = ok_unchanged.get(k, False) or good
+    weak = ("SHA1", "SHA224", "P384_SHA256", "P521_SHA256", "P521_SHA384", "RSA1024", "RSA2047", "_E3", "_E65539", "P256_SHA512")
+    for (t, b), good in sorted(ok_unchanged.items()):
+        is_weak = any(w in b for w in weak)
+        if is_weak:
+            st["below_minimum_seen"] += 1
+        if not good and not is_weak:
+            raise ctx.infra("model out of date: unchanged base key %s/%s is not accepted-and-usable under any prefix" % (t, b))
+    st["types"] = len(st["types"])
+    return st
+
+
 def judge(ctx, trace, stage, replay_of):
     mism, n = ctx.validate_events(TRACE, trace, stage=stage)
     for m in mism:
@@ -118,7 +149,7 @@ def run(ctx):
     # ---------------- (M)
     if ctx.thorough:
         ctx.model_check("MC_KeysetValidate", "MC_KeysetValidate", stage="M:<=3 keys, reduced per-key domain", workers=6, timeout=2400)
-    ctx.model_check("MC_KeysetValidate", "MC_KeysetValidate_quick", stage="M:<=2 keys, full per-key domain", workers=4)
+    ctx.model_check("MC_KeysetValidate", "MC_KeysetValidate_quick", stage="M:<=2 keys, full per-key domain", workers=2)
     # ---------------- (R) structural
     plan = os.path.join(ctx.scratch, "plan-structural.ndjson")
     r = ctx.tlc("Plan_KeysetValidate", workers=1, heap="6g", env={"VERIF_OUT": plan}, extra=tlc_seed, timeout=1800)
@@ -137,7 +168,26 @@ def run(ctx):
     for k in (len(lines) // 3, len(lines) // 2):
         ctx.sample(json.loads(lines[k]))
     if not mism:
-        ctx.negative_control(TRACE, tr, corrupt, window=120)
+        ctx.negative_control(TRACE, tr, corrupt, window=120, stage="NC:structural")
+    # ---------------- (R) key level
+    kplan = os.path.join(ctx.scratch, "plan-keys.ndjson")
+    r = ctx.tlc("Plan_KeysetKeys", workers=1, heap="4g", env={"VERIF_OUT": kplan}, timeout=1800)
+    if not r.ok:
+        raise ctx.infra("key plan: %s" % (r.error or r.summary()))
+    krows = open(kplan).read().splitlines()
+    ktr = os.path.join(ctx.scratch, "c14-keys.ndjson")
+    ctx.run([drv, "-mode", "keys", "-plan", kplan, "-out", ktr], timeout=2400)
+    kstats = key_expectations(ctx, ktr)
+    ctx.stage("R:keys", cases=len(krows), **kstats)
+    ctx.log("key plan: %d cases; %s" % (len(krows), kstats))
+    kmism, kn = judge(ctx, ktr, "R:key types x base keys x field edits",
+                      lambda e: dict(mode="keys", n=e["n"], row=json.loads(krows[e["n"] - 1])))
+    ctx.cov["traces_validated_against_impl"] += kn
+    klines = open(ktr).read().splitlines()
+    for k in (len(klines) // 4, len(klines) // 2):
+        ctx.sample(json.loads(klines[k]))
+    if not kmism:
+        ctx.negative_control(TRACE, ktr, corrupt, window=120, stage="NC:keys")
 
 
 MANIFEST = dict(
